@@ -66,18 +66,23 @@ func newC05Half() *c05Half { return &c05Half{notify: make(chan struct{})} }
 func (h *c05Half) bump()   { close(h.notify); h.notify = make(chan struct{}) }
 
 type c05Conn struct {
-	name   string
-	rd, wr *c05Half
-	w      *c05World
-	mu     sync.Mutex
-	dl     time.Time
-	dlCh   chan struct{}
-	closed bool
-	eofN   int       // EOF reads in a row at one virtual instant
-	eofAt  time.Time // instant of the last EOF read
-	local  net.Addr
-	remote net.Addr
+	name       string
+	rd, wr     *c05Half
+	w          *c05World
+	mu         sync.Mutex
+	dl         time.Time
+	dlCh       chan struct{}
+	closed     bool
+	eofN       int       // EOF reads in a row at one virtual instant
+	eofAt      time.Time // instant of the last EOF read
+	local      net.Addr
+	remote     net.Addr
+	noDeadline bool      // SetReadDeadline fails (a conn without deadline support)
+	got        int       // bytes handed to the reader so far
+	rlog       []c05Read // every Read call: bytes handed out before it, len(p)
 }
+
+type c05Read struct{ have, size int }
 
 func c05Pair(w *c05World, a, b string) (*c05Conn, *c05Conn) {
 	h1, h2 := newC05Half(), newC05Half()
@@ -97,6 +102,17 @@ func c05ResetErr() error {
 }
 
 func (c *c05Conn) Read(p []byte) (int, error) {
+	c.mu.Lock()
+	c.rlog = append(c.rlog, c05Read{c.got, len(p)})
+	c.mu.Unlock()
+	n, err := c.read(p)
+	c.mu.Lock()
+	c.got += n
+	c.mu.Unlock()
+	return n, err
+}
+
+func (c *c05Conn) read(p []byte) (int, error) {
 	for {
 		c.mu.Lock()
 		closed, dl, dlCh := c.closed, c.dl, c.dlCh
@@ -224,6 +240,9 @@ func (c *c05Conn) LocalAddr() net.Addr           { return c.local }
 func (c *c05Conn) RemoteAddr() net.Addr          { return c.remote }
 func (c *c05Conn) SetDeadline(t time.Time) error { return c.SetReadDeadline(t) }
 func (c *c05Conn) SetReadDeadline(t time.Time) error {
+	if c.noDeadline {
+		return errors.New("deadline not supported")
+	}
 	c.mu.Lock()
 	c.dl = t
 	close(c.dlCh)
@@ -370,6 +389,7 @@ func (r *c05Recv) run(w *c05World, c net.Conn, wg *sync.WaitGroup) {
 		r.mu.Unlock()
 	}
 }
+
 // str renders the deliveries; those at instant `drop` (>= 0) are left out.
 func (r *c05Recv) str(drop int64) string {
 	r.mu.Lock()
@@ -412,14 +432,14 @@ func c05Play(w *c05World, c *c05Conn, s c05Script, wg *sync.WaitGroup) {
 
 type c05Dialer struct {
 	mu   sync.Mutex
-	dial func() (netproxy.Conn, error)
+	dial func(addr string) (netproxy.Conn, error)
 }
 
-func (d *c05Dialer) DialContext(context.Context, string, string) (netproxy.Conn, error) {
+func (d *c05Dialer) DialContext(_ context.Context, _ string, addr string) (netproxy.Conn, error) {
 	d.mu.Lock()
 	f := d.dial
 	d.mu.Unlock()
-	return f()
+	return f(addr)
 }
 
 func c05ControlPlane(t *testing.T, ud *c05Dialer) *ControlPlane {
@@ -473,13 +493,49 @@ type c05Scn struct {
 	client  c05Script
 	up      c05Script
 	kind    string
+	host    string // unique per scenario: SNI / Host header, i.e. the dial target of a sniffed connection
 }
+
+var c05HostSeq int
+
+func c05NextHost() string { c05HostSeq++; return fmt.Sprintf("c%d.example.com", c05HostSeq) }
 
 func c05SniffEligible(port uint16) bool { return !tcpSniffingExcludedPorts[port] }
 
-// oracles handed to the model: dns.Unpack of the first frame, isLikelyHttpOrTLSPrefix of the
-// prefetched bytes, ErrNeedMore at every cumulative length — all computed with the real functions.
-func c05Oracles(s *c05Scn) (unpack, likely bool, needMore []int) {
+// c05ProbeReader feeds a fixed prefix to the REAL stream sniffer and notes whether it asked for more.
+type c05ProbeReader struct {
+	data []byte
+	off  int
+	more bool
+}
+
+var errC05ProbeStop = errors.New("probe: no more data")
+
+func (r *c05ProbeReader) Read(p []byte) (int, error) {
+	if r.off < len(r.data) {
+		n := copy(p, r.data[r.off:])
+		r.off += n
+		return n, nil
+	}
+	r.more = true
+	return 0, errC05ProbeStop
+}
+
+// c05NeedMore asks the real SniffTcp (real sniffer order) whether a buffer holding exactly `prefix`
+// makes it read again, i.e. whether the verdict is ErrNeedMore.
+func c05NeedMore(prefix []byte) bool {
+	pr := &c05ProbeReader{data: prefix}
+	sn := sniffing.NewStreamSniffer(pr, time.Second)
+	_, _ = sn.SniffTcp()
+	_ = sn.Close()
+	return pr.more
+}
+
+// oracles handed to the model, all computed with the real functions: dns.Unpack of the first frame,
+// isLikelyHttpOrTLSPrefix of the prefetched bytes, and — after the run, at the buffer lengths the real
+// sniffer actually held (plus every cumulative segment length) — ErrNeedMore and the size of the conn
+// read the sniffer issued (Buffer.ReadFromOnce offers cap-len).
+func c05Oracles(s *c05Scn, detect []c05Read) (unpack, likely bool, needMore []int, offers string) {
 	stream := s.client.stream()
 	if len(stream) >= 2 {
 		l := int(stream[0])<<8 | int(stream[1])
@@ -495,25 +551,40 @@ func c05Oracles(s *c05Scn) (unpack, likely bool, needMore []int) {
 		}
 		likely = isLikelyHttpOrTLSPrefix(first)
 	}
-	if likely {
+	offers = "-"
+	if likely && s.port != 53 {
+		lens := map[int]bool{}
 		cum := 0
 		for _, e := range s.client.evs {
-			cum += e.c.len
-			if !e.c.gen {
-				cum += len(e.c.lit)
-			}
-			if cum > 8192 {
+			cum += len(e.c.bytes())
+			if cum > 40000 {
 				break
 			}
-			sn := sniffing.NewPacketSniffer(stream[:cum], time.Second)
-			_, err := sn.SniffTls()
-			if err == sniffing.ErrNotApplicable {
-				_, err = sn.SniffHttp()
+			lens[cum] = true
+		}
+		var ofs []string
+		seen := map[int]bool{}
+		for _, r := range detect {
+			if r.have > 0 && r.have <= len(stream) {
+				lens[r.have] = true
+				if !seen[r.have] {
+					seen[r.have] = true
+					ofs = append(ofs, fmt.Sprintf("%d:%d", r.have, r.size))
+				}
 			}
-			if errors.Is(err, sniffing.ErrNeedMore) {
-				needMore = append(needMore, cum)
+		}
+		if len(ofs) > 0 {
+			offers = strings.Join(ofs, ",")
+		}
+		var ls []int
+		for l := range lens {
+			ls = append(ls, l)
+		}
+		sort.Ints(ls)
+		for _, l := range ls {
+			if c05NeedMore(stream[:l]) {
+				needMore = append(needMore, l)
 			}
-			_ = sn.Close()
 		}
 	}
 	return
@@ -530,106 +601,171 @@ func c05Ints(xs []int) string {
 	return strings.Join(p, ",")
 }
 
-// c05Run plays one scenario against the real handleConn.  ok=false: discarded (instant race).
-func c05Run(t *testing.T, cp *ControlPlane, ud *c05Dialer, s *c05Scn) (op, impl string, ok bool) {
-	unpack, likely, needMore := c05Oracles(s)
-	sniff := c05SniffEligible(s.port) && !s.negSkip
-	op = fmt.Sprintf("conn t0=%d p53=%s sniff=%s w=%d unpack=%s ctl=0 likely=%s nm=%s rcw=%s lcw=1 c=%s u=%s",
-		c05LookupDelay, c05B(s.port == 53), c05B(sniff), s.window, c05B(unpack), c05B(likely), c05Ints(needMore), c05B(s.rcw),
-		s.client.tok(), s.up.tok())
+type c05Result struct {
+	op, impl string
+	ok       bool
+	why      string // reason of a discard
+}
+
+// one scenario while it runs
+type c05Live struct {
+	s               *c05Scn
+	client, left    *c05Conn
+	upstream, right *c05Conn
+	clRecv, upRecv  c05Recv
+	dialT           int64
+	armed           bool
+	detect          []c05Read
+	ret             int64
+	crash           string
+	wg              sync.WaitGroup
+}
+
+// c05RunBatch plays the scenarios SIMULTANEOUSLY (one synctest bubble, one ControlPlane, shared pools)
+// against the real handleConn; each scenario has its own destination address and host name, by which
+// the scripted dialer finds its upstream.  All scenarios of a batch use the first one's sniffing window.
+func c05RunBatch(t *testing.T, cp *ControlPlane, ud *c05Dialer, scns []*c05Scn) []c05Result {
+	res := make([]c05Result, len(scns))
+	lives := make([]*c05Live, len(scns))
 	synctest.Test(t, func(t *testing.T) {
 		w := &c05World{t0: time.Now()}
-		client, left := c05Pair(w, "client", "left")
-		upstream, right := c05Pair(w, "up", "right")
-		dst := netip.AddrPortFrom(netip.MustParseAddr("93.184.216.34"), s.port)
-		left.local = net.TCPAddrFromAddrPort(dst)
-		left.remote = net.TCPAddrFromAddrPort(netip.MustParseAddrPort("192.168.1.10:40000"))
-		right.local, right.remote = left.remote, left.local
-
-		cp.sniffingTimeout = time.Duration(s.window) * time.Microsecond
+		cp.sniffingTimeout = time.Duration(scns[0].window) * time.Microsecond
 		cp.clearAllTcpSniffNegative()
-		if s.negSkip {
-			key := newTcpSniffNegKey(dst, &bpfRoutingResult{Outbound: uint8(consts.OutboundControlPlaneRouting)})
-			for i := 0; i < int(tcpSniffFailureThreshold); i++ {
-				cp.noteTcpSniffFailure(key, time.Now())
+		byAddr := map[string]*c05Live{}
+		for i, s := range scns {
+			l := &c05Live{s: s, dialT: -1}
+			lives[i] = l
+			l.client, l.left = c05Pair(w, "client", "left")
+			l.upstream, l.right = c05Pair(w, "up", "right")
+			dst := netip.AddrPortFrom(netip.AddrFrom4([4]byte{93, 184, byte(1 + i/200), byte(1 + i%200)}), s.port)
+			l.left.local = net.TCPAddrFromAddrPort(dst)
+			l.left.remote = net.TCPAddrFromAddrPort(netip.AddrPortFrom(netip.MustParseAddr("192.168.1.10"), uint16(40000+i)))
+			l.right.local, l.right.remote = l.left.remote, l.left.local
+			byAddr[dst.String()] = l
+			if s.host != "" {
+				byAddr[fmt.Sprintf("%s:%d", s.host, s.port)] = l
+			}
+			if s.negSkip {
+				key := newTcpSniffNegKey(dst, &bpfRoutingResult{Outbound: uint8(consts.OutboundControlPlaneRouting)})
+				for k := 0; k < int(tcpSniffFailureThreshold); k++ {
+					cp.noteTcpSniffFailure(key, time.Now())
+				}
 			}
 		}
-		var wg sync.WaitGroup
-		var clRecv, upRecv c05Recv
-		dialT := int64(-1)
-		armed := false
 		ud.mu.Lock()
-		ud.dial = func() (netproxy.Conn, error) {
-			dialT = w.us()
-			armed = left.readDeadlineArmed()
-			wg.Add(2)
-			go upRecv.run(w, upstream, &wg)
-			go c05Play(w, upstream, s.up, &wg)
-			if s.rcw {
-				return right, nil
+		ud.dial = func(addr string) (netproxy.Conn, error) {
+			l := byAddr[addr]
+			if l == nil {
+				return nil, fmt.Errorf("c05: no scenario for dial target %q", addr)
 			}
-			return c05NoCW{right}, nil
+			l.dialT = w.us()
+			l.armed = l.left.readDeadlineArmed()
+			l.left.mu.Lock()
+			l.detect = append([]c05Read(nil), l.left.rlog...)
+			l.left.mu.Unlock()
+			l.wg.Add(2)
+			go l.upRecv.run(w, l.upstream, &l.wg)
+			go c05Play(w, l.upstream, l.s.up, &l.wg)
+			if l.s.rcw {
+				return l.right, nil
+			}
+			return c05NoCW{l.right}, nil
 		}
 		ud.mu.Unlock()
-		wg.Add(2)
-		go clRecv.run(w, client, &wg)
-		go c05Play(w, client, s.client, &wg)
-		out := VRecover(func() string {
-			_ = cp.handleConn(context.Background(), left)
-			return ""
-		})
-		ret := w.us()
-		wg.Wait()
-		if dialT >= 0 {
-			// the scripted upstream may still be open when its script outlives the relay
-			_ = upstream.Close()
+		var all sync.WaitGroup
+		for _, l := range lives {
+			l := l
+			all.Add(1)
+			l.wg.Add(2)
+			go l.clRecv.run(w, l.client, &l.wg)
+			go c05Play(w, l.client, l.s.client, &l.wg)
+			go func() {
+				defer all.Done()
+				l.crash = VRecover(func() string {
+					_ = cp.handleConn(context.Background(), l.left)
+					return ""
+				})
+				l.ret = w.us()
+				l.wg.Wait()
+				if l.dialT >= 0 {
+					_ = l.upstream.Close() // its script may outlive the relay
+				}
+			}()
 		}
-		if out != "" {
-			impl = out
-			ok = true
-			return
-		}
-		// discard scripts with an event exactly on an armed deadline
+		all.Wait()
 		arm := map[int64]bool{}
 		w.mu.Lock()
 		for _, a := range w.arms {
 			arm[a] = true
 		}
 		w.mu.Unlock()
-		racy := false
-		for _, sc := range []c05Script{s.client, s.up} {
-			for _, e := range sc.evs {
-				racy = racy || arm[e.t]
+		for i, l := range lives {
+			s := l.s
+			if l.crash != "" {
+				res[i].impl, res[i].ok = l.crash, true
+				continue
 			}
-			racy = racy || arm[sc.finT]
+			// two events of different goroutines at one virtual instant have no defined order:
+			// a script event exactly on an armed deadline, or the upstream ending before the relay starts
+			racy := ""
+			for _, sc := range []c05Script{s.client, s.up} {
+				for _, e := range sc.evs {
+					if arm[e.t] {
+						racy = "instant-race"
+					}
+				}
+				if arm[sc.finT] {
+					racy = "instant-race"
+				}
+			}
+			if l.dialT >= 0 && s.up.finT <= l.dialT {
+				racy = "upstream-ended-before-dial"
+			}
+			if racy != "" {
+				res[i].why = racy
+				continue
+			}
+			res[i].ok = true
+			if l.dialT < 0 {
+				res[i].impl = fmt.Sprintf("dial=- armed=0 up=-#- upeof=%d cl=%s cleof=%d ret=%d", l.ret, l.clRecv.str(-1), l.clRecv.eofT, l.ret)
+				continue
+			}
+			// what reached the client in the very instant the relay both started and collapsed is a
+			// scheduling race between the two directions: not compared (the model driver drops it too);
+			// when the client had already reset, the failing write towards it may force-close the pair
+			// before the buffered prefix is forwarded: same instant, not compared either
+			drop, dropUp := int64(-1), int64(-1)
+			if l.ret == l.dialT {
+				drop = l.ret
+				if s.client.reset {
+					dropUp = l.ret
+				}
+			}
+			res[i].impl = fmt.Sprintf("dial=%d armed=%s up=%s upeof=%d cl=%s cleof=%d ret=%d",
+				l.dialT, c05B(l.armed), l.upRecv.str(dropUp), l.upRecv.eofT, l.clRecv.str(drop), l.clRecv.eofT, l.ret)
 		}
-		if racy {
-			return
-		}
-		ok = true
-		if dialT < 0 {
-			impl = fmt.Sprintf("dial=- armed=0 up=-#- upeof=%d cl=%s cleof=%d ret=%d", ret, clRecv.str(-1), clRecv.eofT, ret)
-			return
-		}
-		// what reached the client in the very instant the relay both started and collapsed is a
-		// scheduling race between the two directions: not compared (the model driver drops it too)
-		drop := int64(-1)
-		if ret == dialT {
-			drop = ret
-		}
-		// ... and when the client had already reset, the failing write towards it may force-close the
-		// pair before the buffered prefix is forwarded: same instant, not compared either
-		dropUp := int64(-1)
-		if ret == dialT && s.client.reset {
-			dropUp = ret
-		}
-		impl = fmt.Sprintf("dial=%d armed=%s up=%s upeof=%d cl=%s cleof=%d ret=%d",
-			dialT, c05B(armed), upRecv.str(dropUp), upRecv.eofT, clRecv.str(drop), clRecv.eofT, ret)
 	})
-	return
+	// op lines (the sniff oracles need what the run observed)
+	for i, l := range lives {
+		s := l.s
+		detect := l.detect
+		if l.dialT < 0 {
+			detect = l.left.rlog
+		}
+		unpack, likely, needMore, offers := c05Oracles(s, detect)
+		sniff := c05SniffEligible(s.port) && !s.negSkip
+		res[i].op = fmt.Sprintf("conn t0=%d p53=%s sniff=%s w=%d unpack=%s ctl=0 likely=%s nm=%s or=%s rcw=%s lcw=1 c=%s u=%s",
+			c05LookupDelay, c05B(s.port == 53), c05B(sniff), scns[0].window, c05B(unpack), c05B(likely), c05Ints(needMore), offers,
+			c05B(s.rcw), s.client.tok(), s.up.tok())
+	}
+	return res
 }
 
-// ------------------------------------------------------------------ generators
+// c05Run plays one scenario alone.  ok=false: discarded.
+func c05Run(t *testing.T, cp *ControlPlane, ud *c05Dialer, s *c05Scn) (op, impl string, ok bool, why string) {
+	r := c05RunBatch(t, cp, ud, []*c05Scn{s})[0]
+	return r.op, r.impl, r.ok, r.why
+}
 
 // handleConn first retries the conn-state lookup (no eBPF maps here: ErrKeyNotExist every time)
 var c05LookupDelay = int64(tcpRoutingLookupRetryAttempts-1) * tcpRoutingLookupRetryDelay.Microseconds()
@@ -639,7 +775,7 @@ const (
 	c05Sec = int64(1000000)
 )
 
-func c05ClientHello(r *VRand, sni string) []byte {
+func c05ClientHello(r *VRand, sni string, maxPad int) []byte {
 	// RFC 8446 §4.1.2 ClientHello with server_name, written from the RFC (not from the sniffer)
 	var ext []byte
 	add := func(typ int, body []byte) {
@@ -654,7 +790,10 @@ func c05ClientHello(r *VRand, sni string) []byte {
 	sn = append(sn, name...)
 	add(0, sn)
 	add(0x002b, []byte{2, 3, 4})
-	if pad := r.Intn(300); pad > 0 {
+	if pad := r.Intn(maxPad + 1); pad > 0 {
+		if maxPad > 1000 {
+			pad = maxPad
+		}
 		add(0x0015, make([]byte, pad))
 	}
 	body := []byte{3, 3}
@@ -742,12 +881,20 @@ func c05Gap(r *VRand, window int64, p53 bool) int64 {
 	case 8:
 		return int64(r.Range(5100, 9900)) * c05Ms
 	default:
+		switch r.Intn(5) {
+		case 0:
+			return int64(r.Range(30, 40)) * c05Sec // far beyond every deadline dae arms
+		case 1:
+			return int64(r.Range(110, 130)) * c05Sec
+		case 2:
+			return int64(r.Range(590, 620)) * c05Sec
+		}
 		return int64(r.Range(10100, 14000)) * c05Ms
 	}
 }
 
-func c05GenScn(r *VRand, stats *VStats) *c05Scn {
-	s := &c05Scn{rcw: !r.Chance(0.2)}
+func c05GenScn(r *VRand, stats *VStats, forcedWindow int64) *c05Scn {
+	s := &c05Scn{rcw: !r.Chance(0.2), host: c05NextHost()}
 	switch r.Intn(10) {
 	case 0, 1, 2:
 		s.port = 53
@@ -760,6 +907,9 @@ func c05GenScn(r *VRand, stats *VStats) *c05Scn {
 		s.port = []uint16{80, 443, 8080}[r.Intn(3)]
 	}
 	s.window = []int64{100, 100, 100, 30, 300}[r.Intn(5)] * c05Ms
+	if forcedWindow > 0 {
+		s.window = forcedWindow
+	}
 	p53 := s.port == 53
 
 	// ---- client first bytes
@@ -791,19 +941,26 @@ func c05GenScn(r *VRand, stats *VStats) *c05Scn {
 			kind, head = "dns-query-then-more", append(c05DnsFrame(r, false, "a.example"), c05DnsFrame(r, r.Bool(), "b.example")...)
 		}
 	} else {
-		switch r.Intn(9) {
+		switch r.Intn(11) {
 		case 0, 1:
-			kind, head = "http", []byte("GET /index.html HTTP/1.1\r\nHost: www.example.com\r\nUser-Agent: x\r\n\r\n")
+			kind, head = "http", []byte("GET /"+s.host+" HTTP/1.1\r\nHost: "+s.host+"\r\nUser-Agent: x\r\n\r\n")
 		case 2:
-			kind, head = "http-16", []byte("GET / HTTP/1.1\r\nHost: example.com\r\n\r\n")
+			kind, head = "http-16", []byte("GET / HTTP/1.1\r\nHost: "+s.host+"\r\n\r\n")
 		case 3, 4:
-			kind, head = "tls", c05ClientHello(r, "tls.example.com")
+			kind, head = "tls", c05ClientHello(r, s.host, 300)
 		case 5:
 			kind, head = "ssh-banner", []byte("SSH-2.0-OpenSSH_9.6\r\n")
 		case 6:
 			kind, head = "none", nil
 		case 7:
 			kind, head = "tls-junk", append([]byte{0x16, 3, 1, 1, byte(r.Intn(256))}, c05GenBytes(r.Intn(256), r.Range(0, 120))...)
+		case 8:
+			// a ClientHello of 1.5-6 KB (padding extension): sniff buffer beyond its pre-grown 4 KiB
+			kind, head = "tls-big", c05ClientHello(r, s.host, r.Range(1200, 5600))
+		case 9:
+			// an HTTP request with 2-8 KB of headers before Host
+			pad := strings.Repeat("X-Pad: "+strings.Repeat("p", 120)+"\r\n", r.Range(16, 62))
+			kind, head = "http-big", []byte("POST /"+s.host+" HTTP/1.1\r\n"+pad+"Host: "+s.host+"\r\n\r\n")
 		default:
 			kind, head = "random", c05GenBytes(r.Intn(256), r.Range(1, 300))
 		}
@@ -826,7 +983,7 @@ func c05GenScn(r *VRand, stats *VStats) *c05Scn {
 		stats.Inc("client.first-byte-delayed")
 	}
 	if len(head) > 0 {
-		for _, p := range c05Cut(r, head, 4, 512) {
+		for _, p := range c05Cut(r, head, 4, []int{512, 2048, 20000}[r.Intn(3)]) {
 			if !first {
 				step(c05Gap(r, s.window, p53))
 			}
@@ -847,10 +1004,6 @@ func c05GenScn(r *VRand, stats *VStats) *c05Scn {
 			c = c05Chunk{gen: true, seed: r.Intn(256), len: r.Range(4090, 4100)}
 		default:
 			c = c05Chunk{gen: true, seed: r.Intn(256), len: r.Range(1, 600)}
-		}
-		// inside the detection windows keep segments small (sniff reads are modelled as unbounded)
-		if t < 2*s.window+50*c05Ms && !p53 && c.len > 512 {
-			c.len = r.Range(1, 512)
 		}
 		s.client.evs = append(s.client.evs, c05Ev{t, c})
 	}
@@ -900,8 +1053,25 @@ func c05GenScn(r *VRand, stats *VStats) *c05Scn {
 	}
 	u -= u % 4
 	u += 2
-	if u <= bound {
-		u = bound + 2 + int64(r.Range(0, 200))*4*c05Ms/4
+	// The upstream must not end before the relay starts (that instant would be a race between the two
+	// directions).  Mostly keep it behind the static window bound; one time in three let it end anywhere —
+	// in particular within milliseconds of an early dial — and rely on the post-hoc discard
+	// "upstream ended before the observed dial".
+	switch {
+	case r.Chance(0.12):
+		// right after the earliest possible dial (routing lookup done at c05LookupDelay)
+		u = c05LookupDelay + int64(r.Range(1, 5000))
+		u -= u % 4
+		u += 2
+		s.up.evs = nil
+		if r.Bool() {
+			s.up.evs = []c05Ev{{2, c05Lit([]byte("220 hello\r\n"))}}
+		}
+		stats.Inc("up.ends-right-after-earliest-dial")
+	case r.Chance(0.3):
+		stats.Inc("up.end-unconstrained")
+	case u <= bound:
+		u = bound + 2 + int64(r.Range(0, 200))*c05Ms
 		u -= u % 4
 		u += 2
 	}
@@ -964,9 +1134,9 @@ func TestVerifC05Conn(t *testing.T) {
 		n = 60000
 	}
 	emit := func(s *c05Scn) {
-		op, impl, ok := c05Run(t, cp, ud, s)
+		op, impl, ok, why := c05Run(t, cp, ud, s)
 		if !ok {
-			stats.Inc("discard.instant-race")
+			stats.Inc("discard." + why)
 			return
 		}
 		st.Emit(op, impl)
@@ -974,6 +1144,17 @@ func TestVerifC05Conn(t *testing.T) {
 		stats.Inc("scn.port." + fmt.Sprint(s.port))
 		if f["dial"] == "-" {
 			stats.Inc("scn.no-dial")
+		}
+		if of := c05Fields(op)["or"]; of != "-" && of != "" {
+			stats.Inc("sniff.bounded-read-oracle")
+			for _, pr := range strings.Split(of, ",") {
+				var have, size int
+				fmt.Sscanf(pr, "%d:%d", &have, &size)
+				if have > 4096 {
+					stats.Inc("sniff.buffer-over-4KiB")
+					break
+				}
+			}
 		}
 		if strings.HasPrefix(s.kind, "d.") {
 			stats.Sample(s.kind + ": " + op + " => " + impl)
@@ -984,7 +1165,7 @@ func TestVerifC05Conn(t *testing.T) {
 		emit(s)
 	}
 	for i := 0; i < n; i++ {
-		emit(c05GenScn(r, stats))
+		emit(c05GenScn(r, stats, 0))
 	}
 	stats.Write("c05conn")
 }
@@ -997,4 +1178,39 @@ func c05Fields(line string) map[string]string {
 		}
 	}
 	return m
+}
+
+// TestVerifC05Concurrent runs batches of 16 connections at once through the same ControlPlane: whatever is
+// shared between connections (prefetch buffer pool, relay copy buffers, the sniffer's pooled buffers,
+// slices aliasing them) is now really shared, and every connection must still match its own model line.
+func TestVerifC05Concurrent(t *testing.T) {
+	r := NewVRand(VSeed() + 991)
+	st := VOpenStream("c05par")
+	defer st.Close()
+	stats := NewVStats()
+	ud := &c05Dialer{}
+	cp := c05ControlPlane(t, ud)
+	batches, k := 40, 16
+	if VThorough() {
+		batches = 700
+	}
+	for b := 0; b < batches; b++ {
+		window := []int64{100, 100, 30, 300}[r.Intn(4)] * c05Ms
+		scns := make([]*c05Scn, k)
+		for i := range scns {
+			scns[i] = c05GenScn(r, stats, window)
+		}
+		for i, res := range c05RunBatch(t, cp, ud, scns) {
+			if !res.ok {
+				stats.Inc("discard." + res.why)
+				continue
+			}
+			st.Emit(res.op, res.impl)
+			stats.Inc("par.conn")
+			if b == 0 && i < 2 {
+				stats.Sample(res.op + " => " + res.impl)
+			}
+		}
+	}
+	stats.Write("c05par")
 }
